@@ -1,1 +1,100 @@
 import OratioModel
+
+namespace Oratio
+open Types
+
+/-- every element the walk visits is reachable from some element of the queue -/
+theorem bfs_sound_queue (h : Hier) : ∀ (fuel : Nat) (q : List Nat) (u : Nat),
+    u ∈ bfs h fuel q → ∃ t, t ∈ q ∧ Sub h t u := by
+  intro fuel
+  induction fuel with
+  | zero => intro q u hu; simp [bfs] at hu
+  | succ n ih =>
+    intro q u hu
+    cases q with
+    | nil => simp [bfs] at hu
+    | cons t q =>
+      simp only [bfs, List.mem_cons] at hu
+      rcases hu with rfl | hu
+      · exact ⟨u, List.mem_cons_self, Sub.refl u⟩
+      · obtain ⟨s, hs, hsu⟩ := ih _ _ hu
+        rcases List.mem_append.1 hs with hs | hs
+        · exact ⟨s, List.mem_cons_of_mem _ hs, hsu⟩
+        · exact ⟨t, List.mem_cons_self, Sub.step hs hsu⟩
+
+/-- membership after registering `i` with every type of `l` -/
+theorem foldl_register_mem (i : Nat) : ∀ (l : List Nat) (st : Store) (x j : Nat),
+    j ∈ (l.foldl (fun st u => fun x => if x = u then st x ++ [i] else st x) st) x ↔
+      (j ∈ st x ∨ (j = i ∧ x ∈ l)) := by
+  intro l
+  induction l with
+  | nil => intro st x j; simp
+  | cons a l ih =>
+    intro st x j
+    rw [List.foldl_cons, ih]
+    by_cases hx : x = a
+    · subst hx
+      simp only [if_true, List.mem_append, List.mem_cons, List.not_mem_nil, or_false, true_or, and_true]
+      constructor
+      · rintro (h | h)
+        · exact h
+        · exact Or.inr h.1
+      · rintro (h | h)
+        · exact Or.inl (Or.inl h)
+        · exact Or.inl (Or.inr h)
+    · simp [hx]
+
+theorem newInstance_mem (h : Hier) (fuel : Nat) (st : Store) (t i x j : Nat) :
+    j ∈ newInstance h fuel st t i x ↔ (j ∈ st x ∨ (j = i ∧ x ∈ bfs h fuel [t])) := by
+  unfold newInstance
+  exact foldl_register_mem i _ st x j
+
+/-- sound half of the run invariant (no fuel assumption) -/
+theorem run_from_sound (h : Hier) (fuel : Nat) : ∀ (ops : List (Nat × Nat)) (st : Store) (t i : Nat),
+    i ∈ (ops.foldl (fun st op => newInstance h fuel st op.1 op.2) st) t →
+      (i ∈ st t ∨ ∃ op, op ∈ ops ∧ op.2 = i ∧ Sub h op.1 t) := by
+  intro ops
+  induction ops with
+  | nil => intro st t i hi; exact Or.inl hi
+  | cons a ops ih =>
+    intro st t i hi
+    rw [List.foldl_cons] at hi
+    rcases ih _ t i hi with h1 | ⟨op, hop, h2⟩
+    · rcases (newInstance_mem h fuel st a.1 a.2 t i).1 h1 with h1 | ⟨h1, h3⟩
+      · exact Or.inl h1
+      · obtain ⟨s, hs, hsub⟩ := bfs_sound_queue h fuel [a.1] t h3
+        rw [List.mem_singleton] at hs
+        subst hs
+        exact Or.inr ⟨a, List.mem_cons_self, h1.symm, hsub⟩
+    · exact Or.inr ⟨op, List.mem_cons_of_mem _ hop, h2⟩
+
+/-- later creations never remove -/
+theorem run_from_keeps (h : Hier) (fuel : Nat) : ∀ (ops : List (Nat × Nat)) (st : Store) (t i : Nat),
+    i ∈ st t → i ∈ (ops.foldl (fun st op => newInstance h fuel st op.1 op.2) st) t := by
+  intro ops
+  induction ops with
+  | nil => intro st t i hi; exact hi
+  | cons a ops ih =>
+    intro st t i hi
+    rw [List.foldl_cons]
+    exact ih _ t i ((newInstance_mem h fuel st a.1 a.2 t i).2 (Or.inl hi))
+
+/-- complete half of the run invariant -/
+theorem run_from_complete (h : Hier) (fuel : Nat) : ∀ (ops : List (Nat × Nat)) (st : Store) (t i : Nat),
+    (∀ op, op ∈ ops → ∀ u, Sub h op.1 u → u ∈ bfs h fuel [op.1]) →
+    (∃ op, op ∈ ops ∧ op.2 = i ∧ Sub h op.1 t) →
+      i ∈ (ops.foldl (fun st op => newInstance h fuel st op.1 op.2) st) t := by
+  intro ops
+  induction ops with
+  | nil => intro st t i _ hex; obtain ⟨op, hop, _⟩ := hex; cases hop
+  | cons a ops ih =>
+    intro st t i hc hex
+    rw [List.foldl_cons]
+    obtain ⟨op, hop, h2, h3⟩ := hex
+    rcases List.mem_cons.1 hop with rfl | hop
+    · apply run_from_keeps
+      exact (newInstance_mem h fuel st op.1 op.2 t i).2
+        (Or.inr ⟨h2.symm, hc op List.mem_cons_self t h3⟩)
+    · exact ih _ t i (fun o ho => hc o (List.mem_cons_of_mem _ ho)) ⟨op, hop, h2, h3⟩
+
+end Oratio
